@@ -112,6 +112,8 @@ def mk_fits(rng, kind=None, pointing=None, scale=None, rot=None, crpix=None, sha
         w.wcs.crval = [ra, dec]
         w.wcs.set()
         info = {'kind': 'sip', 'crval': [ra, dec]}
+        global LAST_FITS_INPUT
+        LAST_FITS_INPUT = (w, w.deepcopy())
         return FITSWCSCorrector(w), info
     scale = scale or 10 ** rng.uniform(-5.2, -4.0)     # deg / pixel: 0.023" .. 0.36"
     r = rot if rot is not None else rng.uniform(0, 360)
@@ -158,18 +160,31 @@ def mk_fits(rng, kind=None, pointing=None, scale=None, rot=None, crpix=None, sha
             t = amp * (rng.uniform(0.3, 1.0) + 0.5 * np.sin(2.2 * gx + ph) * np.cos(1.7 * gy - ph) + 0.3 * gx * gy)
             return fitswcs.DistortionLookupTable(t.astype(np.float32), (1.0, 1.0), (1.0, 1.0),
                                                  ((nx - 1) / 8.0, (ny - 1) / 8.0))
-        w.cpdis1 = table(rng.uniform(-0.6, 0.6))
-        w.cpdis2 = table(rng.uniform(-0.6, 0.6))
-        if rng.random() < 0.4:
-            w.det2im1 = table(rng.uniform(-0.2, 0.2))
-            if rng.random() < 0.5:
-                w.det2im2 = table(rng.uniform(-0.2, 0.2))
+        # which tables exist varies: CPDIS, CPDIS and DET2IM, DET2IM only (astropy cannot write a header with a CPDIS
+        # table on one axis only, so that layout is not generated)
+        layout = rng.choice(['cpdis', 'cpdis', 'cpdis+det2im', 'cpdis+det2im1', 'det2im', 'det2im', 'det2im1'])
+        if layout.startswith('cpdis'):
+            w.cpdis1 = table(rng.uniform(-0.6, 0.6))
+            if layout != 'cpdis1':
+                w.cpdis2 = table(rng.uniform(-0.6, 0.6))
+        if 'det2im' in layout:
+            amp = 0.2 if layout.startswith('cpdis') else 0.6
+            if not layout.endswith('det2im2'):
+                w.det2im1 = table(rng.uniform(-amp, amp))
+            if not layout.endswith('det2im1'):
+                w.det2im2 = table(rng.uniform(-amp, amp))
         kind = 'lut'
     w.wcs.set()
     info = {'kind': kind, 'crval': [ra, dec], 'scale': scale, 'rot': r, 'crpix': list(cp), 'shape': [nx, ny]}
+    if lut:
+        info['lut'] = layout
+    # side channel for the checks that look at the construction itself (C18, C19): the WCS object handed to the
+    # corrector and a deep copy taken before the corrector saw it
+    LAST_FITS_INPUT = (w, w.deepcopy())
     return FITSWCSCorrector(w), info
 
 
+LAST_FITS_INPUT = None
 _QD = {}
 
 
